@@ -112,3 +112,5 @@ func (l *Locker) Unlock() {
 }
 
 func (l *Locker) HeldByMe() bool { return l.held }
+
+func Sends(c any) int { return -1 }
